@@ -28,6 +28,7 @@ type config struct {
 	queue  string
 	setQ   bool
 	layout int // how the handlers of the registered kinds are laid out in the pattern tree (see register)
+	relife int // 1: a first life with default ownership, the explicit lists are set after its Shutdown; 2: set while that first life runs
 }
 
 const nLayouts = 7
@@ -135,11 +136,38 @@ func observe(cfg config) (rec, error) {
 	if pv := core.Catch(func() { register(s, cfg) }); pv != nil {
 		return nil, fmt.Errorf("registration (layout %d) panicked: %v", cfg.layout, pv)
 	}
-	if cfg.rr != nil || cfg.ra != nil {
-		s.SetOwnedResources(cfg.rr, cfg.ra)
-	}
 	if cfg.setQ {
 		s.SetQueueGroup(cfg.queue)
+	}
+	if cfg.relife != 0 && (cfg.hasRes || cfg.hasAcc) && (cfg.rr != nil || cfg.ra != nil) {
+		// a first life of the same Service value with default ownership
+		c1 := rconn.New(nil)
+		served1 := make(chan struct{}, 1)
+		s.SetOnServe(func(*res.Service) { served1 <- struct{}{} })
+		d1 := make(chan error, 1)
+		go func() { d1 <- s.Serve(c1) }()
+		select {
+		case <-served1:
+		case err := <-d1:
+			return nil, fmt.Errorf("first life (default ownership) did not serve: %v", err)
+		case <-time.After(5 * time.Second):
+			return nil, fmt.Errorf("first life did not start")
+		}
+		if cfg.relife == 2 {
+			s.SetOwnedResources(cfg.rr, cfg.ra)
+		}
+		s.Shutdown()
+		select {
+		case <-d1:
+		case <-time.After(5 * time.Second):
+			return nil, fmt.Errorf("first life did not end")
+		}
+		s.SetOnServe(nil)
+		if cfg.relife == 1 {
+			s.SetOwnedResources(cfg.rr, cfg.ra)
+		}
+	} else if cfg.rr != nil || cfg.ra != nil {
+		s.SetOwnedResources(cfg.rr, cfg.ra)
 	}
 	conn := rconn.New(nil)
 	subscribed := make(chan error, 1)
@@ -375,7 +403,7 @@ func Run(c *core.Ctx) {
 				}
 				k := rng.Intn(4)
 				q := rng.Intn(3)
-				cfgs = append(cfgs, config{sn: sn, rr: rr, ra: ra, hasRes: k&1 != 0, hasAcc: k&2 != 0, setQ: q > 0, queue: []string{"", "", "qg"}[q], layout: rng.Intn(nLayouts)})
+				cfgs = append(cfgs, config{sn: sn, rr: rr, ra: ra, hasRes: k&1 != 0, hasAcc: k&2 != 0, setQ: q > 0, queue: []string{"", "", "qg"}[q], layout: rng.Intn(nLayouts), relife: []int{0, 0, 1, 2}[rng.Intn(4)]})
 			}
 		}
 	}
